@@ -2,4 +2,4 @@ Require Extraction.
 Require Import ExtrOcamlBasic.
 From LedgerV Require Import Base.Prelude Base.Round Base.ExtractHelpers Model.Amount.
 Extraction "model_C03.ml" h_add h_mul h_div h_mod h_opp h_ltb h_eqb h_qred h_qmake h_qnum h_qden
-  aeval is_zero print_scaled.
+  aeval is_zero print_scaled top_amount.
